@@ -94,7 +94,7 @@ CaseOutcome prop_execute(const std::string & case_json) {
             }
             if (!oc.ok) break;
             if (dec::crc32c(newb, 28) != dec::u32(newb + 28)) { oc.fail("header_rewrite", strf("backend op %zu: rewritten header at %llu has a wrong CRC", opi, (unsigned long long) off)); break; }
-        } else if (len == 128 && off >= 32 && sh.chunks.count(off - 32) && dec::is_track(sh.b[off - 32 + 16]) && dec::track_chunk(sh.b[off - 32 + 16]) == dec::TC_HEAD && sh.chunks[off - 32] == 128) {
+        } else if ((len == 128 || len == 136) && off >= 32 && sh.chunks.count(off - 32) && dec::is_track(sh.b[off - 32 + 16]) && dec::track_chunk(sh.b[off - 32 + 16]) == dec::TC_HEAD && sh.chunks[off - 32] == 128) {
             ++n_head;
             const uint8_t * hdr = &sh.b[off - 32];
             int tt = dec::track_type(hdr[16]); int sig = dec::u16(hdr + 18) & 0xff;
@@ -116,7 +116,9 @@ CaseOutcome prop_execute(const std::string & case_json) {
                 }
             }
             if (!oc.ok) break;
-            pending_head_chunk = off - 32;
+            if (len == 136) {   // payload and footer in one write
+                if (dec::u32(newb + 132) != dec::crc32c(newb, 128) || dec::u32(newb + 128) != 0) { oc.fail("head_table", strf("backend op %zu: head table footer at %llu does not match the payload", opi, (unsigned long long) off + 128)); break; }
+            } else pending_head_chunk = off - 32;
         } else if (pending_head_chunk && off == pending_head_chunk + 32 + 128 && len == 8) {
             // footer (pad + CRC) of the head table just rewritten
             std::vector<uint8_t> pl(sh.b.begin() + (long) pending_head_chunk + 32, sh.b.begin() + (long) pending_head_chunk + 32 + 128);
